@@ -8,57 +8,57 @@ ROOT = os.path.dirname(os.path.dirname(os.path.abspath(__file__)))
 CLAIMED = {
     "C03": ("exploration",
             "deterministic simulation: seeded GC-decision schedules at every safepoint + poisoned/quarantined old arenas, transcript equality vs never-collect reference",
-            "Each generated module (1-3 evaluations on one Module, embedder set()/extra_value in between) is run under 5-8 seeded GC decision sequences chosen at every safepoint the evaluator offers; every arena a collection leaves behind is poisoned (and usually quarantined) so a missed root is a deterministic failure; the transcript (incl. error text, host-side reads, frozen exports) must equal the never-collect run byte for byte. Seeded sampling of programs x schedules, not a proof.",
+            "Each generated module (1-3 evaluations on one Module, embedder set()/extra_value and embedder-triggered Evaluator::garbage_collect in between, final freeze) is run under 5-8 seeded GC decision sequences chosen at every safepoint the evaluator offers; every arena a collection leaves behind is poisoned (and usually quarantined) so a missed root is a deterministic failure; the transcript (incl. error text, host-side reads, frozen exports) must equal the never-collect run byte for byte. Seeded sampling of programs x schedules, not a proof.",
             "Trusts: collections only happen at PossibleGc safepoints (the decider hook performs the evaluator's own collection); the poison word makes any stale read fail or differ; generator bias is made visible by probes in the evidence.",
             "DESIGN.md §6 C03"),
     "C07": ("fault_enumeration",
             "deterministic simulation: failure-point enumeration over evaluation histories on one evaluator/module (f-th dynamic fault() invocation fails, natural and ill-typed failures), oracles on error location, call stack, prefix transcripts, probe program and evaluator re-use",
-            "Histories of 2-7 evaluations (eval_module/eval_function) on one Module are replayed with the f-th dynamic fault() invocation failing for enumerated f (all of them when few, a seeded sample otherwise), plus naturally failing and ill-typed programs drawn from an extreme-value catalogue. After every failure: no panic/crash, the error's span and call-stack locations lie inside an involved file on char boundaries, the failing transcript is a prefix of the fault-free one, call_stack_count()==0, an unrelated probe program gives the fresh-evaluator transcript, Module::names/get/freeze/load do not panic, and the rest of the history is identical with a re-used and with a fresh evaluator.",
-            "The 'every builtin x every argument tuple' part of C07 is sampled only (ill-typed mode), not enumerated - it is a pure-input dimension; what is decided is the history/failure-point dimension. Reference for state after failure is the same history with a fresh evaluator per evaluation.",
+            "Histories of 2-7 evaluations (eval_module/eval_function) on one Module are replayed with the f-th dynamic fault() invocation failing for enumerated f (all of them when few, a seeded sample otherwise), plus naturally failing and ill-typed programs drawn from an extreme-value catalogue, calls into a frozen library module, and an enumeration mode that calls every global builtin and every method of 19 receiver values with 0-3 arguments from a 42-value extreme catalogue, each call its own evaluation on one evaluator. After every failure: no panic/crash, the error's span and call-stack locations lie inside an involved file on char boundaries, the failing transcript is a prefix of the fault-free one, call_stack_count()==0, an unrelated probe program gives the fresh-evaluator transcript, Module::names/get/freeze/load do not panic, and the rest of the history is identical with a re-used and with a fresh evaluator.",
+            "The 'every builtin x every argument tuple' part of C07 is a pure-input dimension: it is covered by the bounded enumeration mode (arity <= 3 over a fixed catalogue), not exhaustively; what the simulation decides is the history/failure-point dimension. Reference for state after failure is the same history with a fresh evaluator per evaluation.",
             "DESIGN.md §6 C07"),
     "C12": ("fault_enumeration",
             "deterministic simulation: complete enumeration of the lock catalogue (container x construct x mutation x alias x exit-by-fault at iteration i) against a lock-count model and a never-iterated reference",
-            "The finite catalogue container kind x iterating construct x mutating operation x alias x way of leaving (exhaustion, break, return, continue, injected fault / failing mutation / cancellation / tick budget / depth overflow / natural error at iteration i, failing eager consumer) is enumerated completely by thorough (quick: a seeded eighth). While the construct is active the mutation must fail and leave the container intact; once it has been left - in the same evaluation or, after an error caught by the host, in the next evaluation on the same module - the mutation must succeed and give what it gives on a never-iterated container.",
-            "Exhaustive within the stated catalogue only (17.6k cells); constructs or mutators outside the catalogue are not covered. The reference is the real implementation on a never-iterated container.",
+            "The finite catalogue container kind x iterating construct x mutating operation x alias x way of leaving (exhaustion, break, return, continue, injected fault / failing mutation / cancellation / tick budget / depth overflow / natural error at iteration i, failing eager consumer; host-side iteration from a native function with early drop) is enumerated completely by thorough (quick: a seeded eighth). While the construct is active the mutation must fail and leave the container intact; once it has been left - in the same evaluation or, after an error caught by the host, in the next evaluation on the same module - the mutation must succeed and give what it gives on a never-iterated container.",
+            "Exhaustive within the stated catalogue only (about 17.7k cells); constructs or mutators outside the catalogue are not covered. The reference is the real implementation on a never-iterated container.",
             "DESIGN.md §6 C12"),
     "C15": ("fault_enumeration",
             "deterministic simulation with the evaluator tick counter as simulated clock: budgets enumerated around T and every 1000-tick boundary, cancellation injected at chosen tick positions through a per-tick hook, call-depth limit x depth sweeps on every call path",
-            "For generated loop/call programs whose cost T is measured by a limit-free run (optionally after a prelude evaluation that shifts the 1000-tick phase), every budget in the boundary set must give error <=> cumulative ticks > budget, overshoot <= 1000, a prefix transcript, unchanged behaviour within the limit and a re-usable evaluator; cancellation raised at chosen tick positions (per-tick hook), at the n-th poll, or from inside the program must be honoured within 1000 ticks in the same evaluation; for 16 recursion shapes x limits {1,2,3,5,10,50,200} all depths around the threshold must show a single threshold, StackOverflow as the error, the same threshold on all pure-def call paths, and unbounded recursion must never crash. Tick counts must be repeatable, linear in loop bounds and count every call path.",
+            "For generated loop/call programs whose cost T is measured by a limit-free run (optionally after a prelude evaluation that shifts the 1000-tick phase), every budget in the boundary set must give error <=> cumulative ticks > budget, overshoot <= 1000, a prefix transcript, unchanged behaviour within the limit and a re-usable evaluator; cancellation raised at chosen tick positions (per-tick hook), at the n-th poll, or from inside the program must be honoured within 1000 ticks in the same evaluation, also when the request is raised again on a re-used evaluator after an earlier cancellation; for 16 recursion shapes x limits {1,2,3,5,10,50,200} all depths around the threshold must show a single threshold, StackOverflow as the error, the same threshold on all pure-def call paths, and unbounded recursion must never crash. Tick counts must be repeatable, linear in loop bounds and count every call path (local defs, load()ed frozen defs, lambdas, native callbacks), equal for a frozen and a local copy of the same function.",
             "T is measured, not assumed; the documented check interval (1000) is the only constant. Native-callback paths are only bounded (they may use several frames per level). check_tick_count_limit()'s result type is not exported, only its presence is checked.",
             "DESIGN.md §6 C15"),
     "C04": ("exploration",
             "deterministic simulation: freeze point chosen at any statement boundary (like a crash point), seeded attack histories from persistent / fresh / second-level importers, in-module pre-freeze observation as the reference model",
-            "A generated exporter module is frozen after a seeded prefix of its statements (optionally with a collection forced at every safepoint). An observation program run inside the module just before freezing is the model; the same observation through an importer after freezing must be identical. A seeded history of attacks (the mutation catalogue x every reachability path found by a depth-bounded walk: exports, elements, dict values, struct/record fields, tuple members, values returned by exported functions, re-exports of a frozen importer) follows: every data-path mutation must error, a copy must be mutable, and after every operation a fresh observer must still see the pre-freeze transcript.",
+            "A generated exporter module is frozen after a seeded prefix of its statements (optionally with a collection forced at every safepoint). An observation program run inside the module just before freezing is the model; the same observation through an importer after freezing must be identical. A seeded history of attacks (the mutation catalogue x every reachability path found by a depth-bounded walk: exports, elements, dict values, struct/record fields, tuple members, values returned by exported functions and by closures made by load()ed factories, re-exports of a frozen importer, host-side Value::set_at / set_attr) follows: every data-path mutation (methods, item / attribute / augmented assignment incl. += and |=) must error, a copy must be mutable, and after every operation a fresh observer must still see the pre-freeze transcript.",
             "Sampling of modules x freeze points x attack histories. The observation program is itself Starlark (same implementation on both sides), so a bug that changes a value identically before and after freeze is not visible here.",
             "DESIGN.md §6 C04"),
     "C13": ("exploration",
             "deterministic simulation: seeded histories over a heap dependency graph with seeded drop order and OS-thread placement, poisoned + quarantined (or really re-used) arenas, content re-check after every operation",
-            "Histories of up to 40 operations (build-and-freeze modules loading from live frozen modules, clone, owned handles incl. mapped ones, add_to_heap into new modules, import_public_symbols, Globals from frozen values, modules on such Globals, from_globals, drop of any entity), each placed on one of 1-4 real OS threads and run to completion; every arena is poisoned at drop and quarantined (2/3) or really re-used through the per-thread chunk cache (1/3). After every operation every value reachable from every live entity is re-encoded and exported functions re-called; results must equal those recorded at creation.",
+            "Histories of up to 40 operations (build-and-freeze modules loading from live frozen modules - also pure re-export modules and heaps carrying equal names -, clone, owned handles incl. mapped ones and handles re-homed on a reference-only heap (OwnedFrozen::build), add_to_heap into new modules, import_public_symbols, Globals from frozen values directly or through a grouping FrozenHeap and with one-character names, modules on such Globals, from_globals, drop of any entity), each placed on one of 1-4 real OS threads and run to completion; every arena is poisoned at drop and quarantined (2/3) or really re-used through the per-thread chunk cache (1/3). After every operation every value reachable from every live entity is re-encoded and exported functions re-called; results must equal those recorded at creation.",
             "Only safe documented API is used. A forgotten heap edge is detected when the referenced heap is dropped while a dependant is still observed, which the drop-order search makes likely, not certain.",
             "DESIGN.md §6 C13"),
     "C11": ("exploration",
             "deterministic simulation of operation histories against a Vec model, with panics injected into user callbacks (Hash/Eq/Ord/closures) at the n-th invocation inside an operation; complete enumeration of short histories around the index threshold",
-            "Operation histories over SmallMap (plain and pre-hashed API), SmallSet, OrderedMap/Set, SortedMap/Set/Vec, UnorderedMap/Set and Vec2 are executed against a Vec<(K,V)> model; keys carry simulator-chosen adversarial hashes so collisions are the norm; a panic is injected into Hash/Eq/Ord/retain/sort_by/or_insert_with/and_modify callbacks inside about one operation in nine and the container must stay duplicate-free and internally consistent (narrow relaxation, then re-synchronised); after every step every lookup by key, index and position for every key of the universe is compared. All histories up to length 4 (quick) / 5 (thorough) over an 18-operation alphabet on base maps of 15-18 entries are enumerated completely; random histories up to 220 operations cross the 16-entry threshold repeatedly; tracked values detect double drops and leaks.",
-            "Exhaustive only inside the stated short-history sub-space; the rest is seeded sampling. The relaxed post-panic model accepts loss of entries (the library does not promise more).",
+            "Operation histories over SmallMap (plain and pre-hashed API), SmallSet, OrderedMap/Set, SortedMap/Set/Vec, UnorderedMap/Set and Vec2 are executed against a Vec<(K,V)> model; keys carry simulator-chosen adversarial hashes so collisions are the norm; a panic is injected into Hash/Eq/Ord/retain/sort_by/or_insert_with/and_modify callbacks inside about one operation in nine and the container must then hold exactly what a plain Vec holds after the same interrupted operation (std Vec semantics: retain keeps the entries not yet visited and drops the one whose predicate panicked, sort keeps every entry); after every step every lookup by key, index and position for every key of the universe is compared. All histories up to length 4 (quick) / 5 (thorough) over a 20-operation alphabet on base maps of 15-18 entries are enumerated completely; random histories up to 220 operations cross the 16-entry threshold repeatedly; tracked values detect double drops and leaks.",
+            "Exhaustive only inside the stated short-history sub-space; the rest is seeded sampling. After a panic inside Hash/Eq of a key during an insert the entry may or may not be present (both accepted), nothing else is relaxed.",
             "DESIGN.md §6 C11"),
     "C20": ("exploration",
-            "deterministic simulation: seeded cooperative scheduler (random / PCT / few-preemption policies) over real OS threads parked and released one at a time at hooked shared-state sites, poisoned chunks, sequential-schedule reference",
-            "2-6 real OS threads run generated workloads over 1-3 shared frozen modules (load + call + hash + compare + repr, shared record/enum types, build-freeze-drop of own modules, frozen modules sent to and dropped by another thread); a thread runs only while it holds the baton, which is handed over at hooked scheduling points in /repo (chunk ref-count inc/dec/dealloc, per-thread chunk cache, frozen-heap into_ref/drop/add_reference, lazy string hash, atomic cells of frozen defs, post_freeze, type ids, every evaluator tick) and at send/recv; the schedule PRNG decides who runs, so each run replays from its seed. Every thread's transcript must equal the one it has under the run-to-completion schedule; no panic, chunk life-cycle assertion, deadlock or crash (freed chunks/arenas are poisoned).",
-            "Interleavings are explored at the granularity of the hooked sites only: a race on a location without a scheduling point is invisible unless it changes a result at this granularity; there is no happens-before race detector (Miri cannot run the crate, see DESIGN.md §2). First-use races on process-wide lazies are explored only as 'who gets there first' (initialisers run without pre-emption).",
-            "DESIGN.md §6 C20"),
+            "deterministic simulation: seeded cooperative scheduler (random / PCT / few-preemption policies, recorded literal schedule) over real OS threads parked and released one at a time at scheduling points - hooked shared-state sites, every evaluator tick and every atomic operation of the /repo crates (atomics-only instrumented build) - plus the real chunk allocator sources under shuttle; poisoned chunks; sequential-schedule reference",
+            "2-6 real OS threads run generated workloads over 1-3 shared frozen modules (load + call + hash + compare + repr + json, shared record/enum types, the same frozen call sites hit with receivers of different types per thread, build-freeze-drop of own modules, frozen modules sent to and dropped by another thread, cold-start processes); a thread runs only while it holds the baton, which is handed over at scheduling points: hooked sites in /repo (chunk ref-count inc/dec/dealloc, per-thread chunk cache, frozen-heap into_ref/drop/add_reference, lazy string hash, atomic cells of frozen defs, post_freeze, type ids), every evaluator tick, send/recv, and in half of the schedules every atomic operation executed by starlark / starlark_map / starlark_syntax (compiled a second time with TSan's atomics-only instrumentation; the simulator is the runtime). The schedule PRNG decides who runs; a failing schedule is re-expressed as the literal choice sequence and minimised. Every thread's transcript must equal the one it has under the run-to-completion schedule; no panic, debug assertion, chunk life-cycle assertion, deadlock or crash (freed chunks/arenas are poisoned). One case in five runs the real chunk allocator sources under shuttle with a tracking allocator.",
+            "Interleavings are explored at the granularity of scheduling points: hooked sites, ticks and atomic operations (sequentially consistent; no weak-memory behaviours). A race on plain non-atomic memory is invisible unless it changes a result or trips an assertion at this granularity; there is no happens-before race detector (Miri cannot run the crate, real TSan would need an instrumented std). First-use races on process-wide lazies are explored only as 'who gets there first' (initialisers run without pre-emption).",
+            "DESIGN.md §6 C20, §11.2"),
     "C14": ("exploration",
             "deterministic simulation with the process environment as the schedule: every entropy source (getrandom via LD_PRELOAD shim, address-space layout, thread, evaluation history) drawn from the seed, byte comparison of transcripts across child processes",
-            "Batches of 24 generated 'observable everything' programs (print, repr/str of all value kinds incl. functions/types/bound methods, dir, hash, json, dict/set/struct iteration, failing tails with suggestions and call stacks, plus type-checker errors/interface/approximations and lints of the same file) run in 3 (quick) / 6 (thorough) child processes whose entropy is controlled: getrandom/getentropy stream (std RandomState keys), ASLR disabled and replaced by seeded mmap/malloc/env-padding noise, evaluation on main / 1st / n-th spawned thread, seeded program order and warm-up evaluations. All configurations must produce byte-identical transcripts per program; probes confirm the configurations really differed (std HashSet order, stack address).",
+            "Batches of 24 generated 'observable everything' programs (print, repr/str of all value kinds incl. functions/types/bound methods, dir, hash, json, dict/set/struct iteration, failing tails with suggestions and call stacks, plus type-checker errors/interface/approximations and lints of the same file, did-you-mean suggestions with several equally near candidates, several undefined names) run in 3 (quick) / 6 (thorough) child processes whose entropy is controlled: getrandom/getentropy stream (std RandomState keys), ASLR disabled and replaced by seeded mmap/malloc/env-padding noise, evaluation on main / 1st / n-th spawned thread, seeded program order and warm-up evaluations. All configurations must produce byte-identical transcripts per program; probes confirm the configurations really differed (std HashSet order, stack address).",
             "Covers the entropy sources listed; a source not behind one of these seams (e.g. a clock) would not be varied. The harness renders API results in the order returned.",
             "DESIGN.md §6 C14"),
     "C18": ("exploration",
             "deterministic simulation of a debugger client in lock-step with the evaluation thread (scripted requests, breakpoint changes, detach and late-request faults) plus all profiler / statement-hook configurations, compared with the uninstrumented transcript",
-            "Generated programs with marker statements are run uninstrumented (reference), under each of the 13 ProfileModes followed by gen_profile, under a counting statement hook (exactly one continued=false call per executed marker statement) and under the DAP adapter driven by a simulated client in lock-step with the evaluation thread: breakpoints on seeded subsets of marker lines incl. conditional / failing conditions and breakpoint-set changes at stops, requests at every stop (top_frame, stack_trace, scopes, variables, inspect_variable, evaluate incl. failing expressions), step Into/Over/Out, detach at a seeded stop, request after the evaluation ended (must return, not hang). Transcript, result and error text must equal the reference; the sequence of stops must equal the executed markers carrying a breakpoint; variables shown at a stop must equal what the marker then emits; under step-Into every executed marker is stopped at exactly once.",
+            "Generated programs with marker statements (module level, defs incl. type-annotated ones, loops, comprehensions, closures) are run uninstrumented (reference), under each of the 13 ProfileModes followed by gen_profile, under a counting statement hook (exactly one continued=false call per executed marker statement) and under the DAP adapter driven by a simulated client in lock-step with the evaluation thread: breakpoints on seeded subsets of marker lines incl. conditional / failing conditions and breakpoint-set changes at stops, requests at every stop (top_frame, stack_trace, scopes, variables, inspect_variable, evaluate incl. failing expressions), step Into/Over/Out, detach at a seeded stop, request after the evaluation ended (must return, not hang). Transcript, result and error text must equal the reference; the sequence of stops must equal the executed markers carrying a breakpoint; variables shown at a stop must equal what the marker then emits; under step-Into every executed marker is stopped at exactly once.",
             "Over/Out are only checked for non-interference. One recorded defect (module-level statements announced twice to hooks/debugger) is modelled and reported as KNOWN-FINDING; any other deviation is a violation.",
             "DESIGN.md §6 C18"),
     "C19": ("exploration",
             "deterministic simulation of an LSP client over the in-memory transport plus a simulated file system with I/O faults behind LspContext; ground truth of name resolution obtained by running the generated documents (tagged bindings)",
-            "The real server loop runs on its own thread over Connection::memory(); the simulated client opens 1-3 generated documents (nested defs / lambdas / comprehensions / loops with deliberate shadowing, parameter defaults, load() between documents, non-ASCII and astral characters before identifiers, LF/CRLF), issues gotoDefinition / hover / completion at every identifier use and at seeded odd positions, changes a document valid -> invalid -> valid, closes, re-opens, queries closed and never-opened documents, and shuts down; the simulated file system injects resolver errors and unreadable / missing loaded files. Every request must get exactly one in-order response and shutdown must terminate (no hang, no panic); every range in every response and diagnostic must denote valid UTF-16 positions of the text it is based on; go-to-definition must answer a binding of the same name in the scope from which the running program actually read the variable (each binding assigns a distinct tag, each use reports the tag it read); evaluation error spans must resolve to the line/character of the text.",
+            "The real server loop runs on its own thread over Connection::memory(); the simulated client opens 1-3 generated documents (nested defs / lambdas / comprehensions / loops with deliberate shadowing, parameter defaults, load() between documents, non-ASCII and astral characters before identifiers, LF/CRLF), issues gotoDefinition / hover / completion at every identifier use and at seeded odd positions, changes a document valid -> invalid -> valid, closes, re-opens, queries closed and never-opened documents, and shuts down; the simulated file system injects resolver errors and unreadable / missing loaded files (the loaded document is open in the editor or exists on the simulated disk only); requests are also issued inside the load statement. Every request must get exactly one in-order response and shutdown must terminate (no hang, no panic); every range in every response and diagnostic must denote valid UTF-16 positions of the text it is based on; go-to-definition must answer a binding of the same name in the scope from which the running program actually read the variable (each binding assigns a distinct tag, each use reports the tag it read); evaluation error spans must resolve to the line/character of the text.",
             "Message loss/reordering and malformed JSON are not injected. Two recorded defects about astral characters (outgoing columns are character counts) are modelled and reported as KNOWN-FINDING.",
             "DESIGN.md §6 C19"),
 }
@@ -100,7 +100,7 @@ def main():
     baseline = json.load(open("/root/.vp/BASELINE.json"))["cmd"] if os.path.exists("/root/.vp/BASELINE.json") else ""
     m = {
         "version": 1,
-        "setup_cmd": "cd /verif/sim && CARGO_NET_OFFLINE=true cargo build --release --offline && (cd /verif/chunksim && cargo build --release --offline) && cc -shared -fPIC -O2 -o /verif/target/entropy_shim.so /verif/sim/shim/entropy_shim.c",
+        "setup_cmd": "cd /verif/sim && CARGO_NET_OFFLINE=true cargo build --release --offline && CARGO_NET_OFFLINE=true CARGO_TARGET_DIR=/verif/target/atomic RUSTC_WRAPPER=/verif/tools/rustc_atomic.sh cargo build --release --offline && (cd /verif/chunksim && cargo build --release --offline) && cc -shared -fPIC -O2 -o /verif/target/entropy_shim.so /verif/sim/shim/entropy_shim.c",
         "hooks": {
             "guard": "cargo feature `verif_hooks` of crate `starlark` (off by default; all hook code is #[cfg(feature = \"verif_hooks\")])",
             "enable": "the simulator crate /verif/sim depends on /repo/starlark by path with features = [\"verif_hooks\"]; every ./check rebuilds it from /repo's working tree",
